@@ -464,6 +464,10 @@ func (fr *Frame) applyContracts(st *State, pc Term, parts []conPart, resT types.
 		for i, en := range part.con.Ensures {
 			g, err := e.evalClause(en.Text, post)
 			if err != nil {
+				if strings.Contains(err.Error(), "unknown identifier") {
+					// the clause speaks about the callee's locals: not usable at the call site (dropped: fewer assumptions)
+					continue
+				}
 				e.fail("%s: ensures %d of %s: %v", fr.key, i, part.key, err)
 				continue
 			}
